@@ -431,3 +431,23 @@ Proof.
     eapply enc_fields_inj; [exact Hwf| | |exact Da|exact Db]; rewrite valid_fields_low; assumption.
   - intros E. rewrite E in Da. rewrite Da in Db. inversion Db. rewrite zlist_eqb_refl. reflexivity.
 Qed.
+
+(* ---------- down to the sets: spellings of one record collapse ---------- *)
+
+Theorem case_variants_collapse a b da db x y :
+  schema_wf (sfs a) = true ->
+  scls a = scls b -> styp a = styp b -> sfs b = sfs a -> slow b = slow a ->
+  valid_fields (sfs a) (svs a) = true -> valid_fields (sfs a) (svs b) = true ->
+  s_digest a None = Ok da -> s_digest b None = Ok db ->
+  vals_ci (slow a) (svs a) (svs b) ->
+  s_abs a = Ok x -> s_abs b = Ok y ->
+  rd_eqb x y = true /\ sadd rd_eqb y [x] = [x] /\ rd_hashkey x = rd_hashkey y /\ rd_cmp x y = 0.
+Proof.
+  intros Hwf Hc Ht Hfs Hlow Va Vb Da Db Hci Hx Hy.
+  pose proof (proj2 (s_eq_iff_fields a b da db Hwf Hc Ht Hfs Hlow Va Vb Da Db) Hci) as He.
+  rewrite (s_eq_abs a b x y Hx Hy) in He. assert (E : rd_eqb x y = true) by congruence. clear He.
+  split; [exact E|]. split.
+  - unfold sadd, mem. cbn. rewrite E. reflexivity.
+  - split; [apply rd_hash_congr, E|].
+    apply rd_cmp_zero_iff; [| |exact E]; apply rd_eqb_iff in E; tauto.
+Qed.
